@@ -31,7 +31,10 @@ def build():
     cp = os.path.join(FDIR, "Cargo.toml")
     if not os.path.exists(cp) or open(cp).read() != new_cargo:
         open(cp, "w").write(new_cargo)
-    shutil.copy(os.path.join(REPO, "Cargo.lock"), os.path.join(FDIR, "Cargo.lock"))
+    lock = os.path.join(REPO, "Cargo.lock")
+    if not os.path.exists(lock):
+        lock = "/repo/Cargo.lock"      # scratch worktrees do not carry the (untracked) lock file
+    shutil.copy(lock, os.path.join(FDIR, "Cargo.lock"))
     env = dict(os.environ, CARGO_NET_OFFLINE="true")
     p = subprocess.run(["cargo", "build", "--offline", "--quiet"], cwd=FDIR, env=env, capture_output=True, text=True)
     if p.returncode != 0:
